@@ -163,7 +163,11 @@ def _impl(ctx, quick, rng, f_build, witness_runs=()):
         cases.append(_case(len(cases), c, _sched(rng, rng.randint(3, 28), 2), 2 if rng.random() < 0.2 else 0))
     binp = f_build.result()
     rows, runs = _execute(ctx, binp, cases, "main", ctx.seed)
-    v = core.validate_traces(ctx, "TMGossipTrace", rows, max_events=2500, timeout=1800, label="gossip")
+    # GOSSIP_STRICT_GAPS=1: the named gaps observed at rest are reported as violations (to obtain replay files that show
+    # each gap on the real code); normally they are listed in the evidence only
+    strict = os.environ.get("GOSSIP_STRICT_GAPS") == "1"
+    v = core.validate_traces(ctx, "TMGossipTrace", rows, cfg="TMGossipTrace_strict.cfg" if strict else None, max_events=2500,
+                             timeout=1800, label="gossip")
     return r_cases, cs, cases, nsched, rows, runs, v
 
 
@@ -299,7 +303,10 @@ def replay(ctx, path):
             "sched": sched, "cont": 0}
     binp = ctx.go_build_test("consensus", ["zz_verif_gossip_test.go"])
     rows, _runs = _execute(ctx, binp, [case], "replay", ctx.seed)
-    v = core.validate_traces(ctx, "TMGossipTrace", rows, label="replay")
+    strict = str(rep.get("signature", {}).get("class", "")).startswith("gap:")
+    v = core.validate_traces(ctx, "TMGossipTrace", rows, cfg="TMGossipTrace_strict.cfg" if strict else None, label="replay")
+    for d in v["drift"]:
+        log("replay: level-1 note at line %d: %s" % (d["l"], d["what"]))
     verdict = core.Verdict(ctx)
     _verdict(ctx, v, verdict)
     for x in v["viol"]:
